@@ -170,8 +170,8 @@ static void run_trace_header(int argc, char **argv) {
     }
     vf_set_plan((o = opt(argc, argv, "plan")) ? o : "");
     enum cc_stat s;
-    if (is_set) s = dflt ? cc_hashset_new(&hs) : cc_hashset_new_conf(&conf, &hs);
-    else s = dflt ? cc_hashtable_new(&ht) : cc_hashtable_new_conf(&conf, &ht);
+    if (is_set) s = VF_OUT(hs, dflt ? cc_hashset_new(&hs) : cc_hashset_new_conf(&conf, &hs));
+    else s = VF_OUT(ht, dflt ? cc_hashtable_new(&ht) : cc_hashtable_new_conf(&conf, &ht));
     printf("new %s", vf_stat(s));
     if (s == CC_OK) obs(); else { ht = NULL; hs = NULL; printf(" |"); vf_ledger(); }
 }
@@ -209,8 +209,8 @@ static void run_op(int argc, char **argv) {
     } else if (!strcmp(op, "size")) {
         printf("size OK %zu", is_set ? cc_hashset_size(hs) : cc_hashtable_size(ht));
     } else if ((!strcmp(op, "get_keys") || !strcmp(op, "get_values")) && !is_set) {
-        CC_Array *ar = NULL; int keys = !strcmp(op, "get_keys");
-        enum cc_stat s = keys ? cc_hashtable_get_keys(ht, &ar) : cc_hashtable_get_values(ht, &ar);
+        CC_Array *ar = VF_SENT; int keys = !strcmp(op, "get_keys");
+        enum cc_stat s = vf_out_check(keys ? cc_hashtable_get_keys(ht, &ar) : cc_hashtable_get_values(ht, &ar), (void**)&ar);
         printf("%s %s", op, vf_stat(s));
         if (s == CC_OK) {
             nwords = 0;
